@@ -4,8 +4,12 @@ import PdfModel.Lemmas.TotalParser
 import PdfModel.Lemmas.TotalContent
 import PdfModel.Lemmas.TotalContentEI
 import PdfModel.Lemmas.TotalXrefTable
+import PdfModel.Lemmas.TotalXrefStream
 import PdfModel.Lemmas.TotalOpen
 import PdfModel.Lemmas.TotalGlue
+import PdfModel.Lemmas.DeriveRegistryTotal
+import PdfModel.Lemmas.ReadLinear
+import PdfModel.Generated.Schemas
 import PdfModel.Props.C02
 import PdfModel.Props.C05
 import PdfModel.Props.C11
@@ -320,19 +324,45 @@ theorem inline_image_ei_total {R : Type} (env : Env R) (henv : EnvOk env) (buf :
 -- ===================================================================================================
 -- 5. cross-reference sections
 
-/-- `read_xref_and_trailer_at` (the `xref` table reader, and the dispatch to the stream reader up to the typed
-    conversion): `Ok` or `Err`; the entry loop runs at most `len` rounds whatever count the subsection header
-    claims (up to 2^32 − 1); a table's sections hold `Free` / `Raw` entries only, which is what the merge needs. -/
-theorem read_xref_at_total {R : Type} (env : Env R) (henv : EnvOk env) (buf : Buf) (hs : RealSize buf)
-    (pos : Nat) (h : pos ≤ buf.size) :
-    readXrefAt env buf pos ≠ .panic ∧ readXrefAt env buf pos ≠ .oof ∧
-    ∀ secs d p, readXrefAt env buf pos = .ok (.table secs d, p) → Xref.pairsOK (Xref.secPairs secs) := by
-  rcases readXrefAt_spec env henv buf hs pos h with he | ⟨r, p, hp, _, hsub⟩
-  · rw [he]; exact ⟨by simp, by simp, fun _ _ _ hh => by cases hh⟩
-  · rw [hp]
-    refine ⟨by simp, by simp, fun secs d p' hh => ?_⟩
+/-- `read_xref_and_trailer_at`, BOTH section formats (the one model of them: `Model/XrefTable` with its stream
+    branch `Model/XrefStreamRead`, over the row reader `Model/XrefStream`), strict and tolerant: `Ok` or `Err` for every
+    buffer and cursor; the entry loop of a table runs at most `len / 3` rounds whatever count the subsection
+    header claims (up to 2^32 − 1); the sections hold `Free` / `Raw` / `Stream` entries only, which is what the merge
+    needs. The typed reader of the stream dictionary (`Stream::<XRefInfo>`, see `derived_reader_total`) and the data
+    of the stream (`Resolve::stream_data` + filters) are parameters that return `Ok` or `Err`. -/
+theorem read_xref_at_total {R : Type} (env : Env R) (henv : EnvOk env) (typed : Dict R → Out XrefTable.XInfo)
+    (htyped : ∀ d, Ret (typed d)) (sdata : Dict R → StreamInner → Out (List UInt8)) (hdata : ∀ d i, Ret (sdata d i))
+    (allowErr : Bool) (buf : Buf) (hs : RealSize buf) (pos : Nat) (h : pos ≤ buf.size) :
+    XrefTable.readXrefAt env typed sdata allowErr buf pos ≠ .panic ∧
+    XrefTable.readXrefAt env typed sdata allowErr buf pos ≠ .oof ∧
+    ∀ secs d, XrefTable.readXrefAt env typed sdata allowErr buf pos = .ok (secs, d) → Xref.pairsOK (Xref.secPairs secs) := by
+  rcases XrefTable.readXrefAt_total env henv typed htyped sdata hdata allowErr buf hs pos h with he | ⟨subs, d, hr, hok⟩
+  · rw [he]; exact ⟨by simp, by simp, fun _ _ hh => by cases hh⟩
+  · rw [hr]
+    refine ⟨by simp, by simp, fun secs d' hh => ?_⟩
     cases hh
-    exact subsOk_pairsOK _ (hsub _ _ rfl)
+    exact subsOk_pairsOK _ hok
+
+/-- The classic table reader alone, with the progress that bounds its work: what `parse_xref_table_and_trailer`
+    returns lies strictly behind the cursor, and (`XrefTable.entryLoop_total`) `n` entries cost at least `3 n` bytes. -/
+theorem xref_table_total {R : Type} (env : Env R) (henv : EnvOk env) (buf : Buf) (hs : RealSize buf) (pos : Nat)
+    (h : pos ≤ buf.size) :
+    XrefTable.parseXrefTableAndTrailer env buf (XrefTable.defaultFuel buf) (defaultFuel buf) pos = .err ∨
+    ∃ subs d q, XrefTable.parseXrefTableAndTrailer env buf (XrefTable.defaultFuel buf) (defaultFuel buf) pos = .ok ((subs, d), q) ∧
+      pos < q ∧ q ≤ buf.size :=  by
+  rcases XrefTable.parseXrefTableAndTrailer_total env henv buf hs pos h with he | ⟨subs, d, q, hq, q1, q2, _⟩
+  · exact Or.inl he
+  · exact Or.inr ⟨subs, d, q, hq, q1, q2⟩
+
+/-- The row reader of cross-reference streams at byte level (the model `Props/C02` reads sections back with): the two
+    panic sites of `read_u64_from_stream` are unreachable behind its guards; a section never holds more entries than
+    the decoded data has bytes. -/
+theorem xref_stream_rows_total (first n : Nat) (width : List Nat) (data : List UInt8) (allowErr : Bool) :
+    Xref.parseSection first n width data allowErr = .err ∨
+    ∃ s rest, Xref.parseSection first n width data allowErr = .ok (s, rest) ∧ s.entries.length ≤ data.length := by
+  rcases Xref.parseSection_spec first n width data allowErr with he | ⟨s, rest, hr, _, _, hl⟩
+  · exact Or.inl he
+  · exact Or.inr ⟨s, rest, hr, hl⟩
 
 /-- The section reader of cross-reference *streams* (`parse_xref_section_from_stream`, the `/Index` loop), for
     every width triple, count and amount of data, strict and tolerant (imported from the C14 package). -/
@@ -345,8 +375,8 @@ theorem xref_stream_sections_total (tolerant : Bool) (width : List Nat) (pairs :
 -- 6. the open path
 
 /-- **`open_core_total`.** For every byte string `buf`, whatever token-level parsers `P` the structural model is
-    run with, provided they are total (`Offsets.Total P` — met by the byte-level models of this package:
-    `table_parsers_total`), and for both option sets:
+    run with, provided they are total on the suffixes of the file (`Offsets.TotalOn P len` — met by the byte-level
+    models: `core_parsers_total`), and for both option sets:
 
     * the header search and the `startxref` search return (C17);
     * loading the chain of cross-reference sections — `startxref`, every `/Prev`, each section merged into the
@@ -361,7 +391,7 @@ theorem xref_stream_sections_total (tolerant : Bool) (width : List Nat) (pairs :
     What is *not* in this theorem (glue exercised only by the walker): the derive-generated typed loaders that sit
     between these pieces (`Stream::<XRefInfo>`, `ObjectStream`, `Catalog`, `Page`, fonts …), third-party
     decoders (they are the parameter `X` of the filter model), allocation sizes, the native stack. -/
-theorem open_core_total {V T : Type} (P : Offsets.Parsers V T) (hP : Offsets.Total P) (buf : List UInt8) :
+theorem open_core_total {V T : Type} (P : Offsets.Parsers V T) (buf : List UInt8) (hP : Offsets.TotalOn P buf.length) :
     (Offsets.locateStart buf).Returns ∧ (Offsets.locateXref buf).Returns ∧
     (Offsets.openFile P (buf.length + 2) buf).Returns ∧
     (∀ start, (Offsets.loadTable P (buf.length + 2) buf start).Returns) ∧
@@ -381,11 +411,11 @@ theorem open_core_total {V T : Type} (P : Offsets.Parsers V T) (hP : Offsets.Tot
         Widths.interp w items ≠ .panic ∧ Widths.interp w items ≠ .oof) ∧
     (∀ bs : List UInt8, CMap.parseCMap bs ≠ .oof) := by
   refine ⟨(Offsets.locate_total buf).1, (Offsets.locate_total buf).2,
-    Offsets.openFile_returns P hP buf _ (Nat.le_refl _),
-    fun start => Offsets.loadTable_returns P hP buf start _ (Nat.le_refl _),
-    fun start t flags id => Offsets.resolveRef_returns_top P hP buf start t _ flags id (Nat.le_refl _),
+    Offsets.openFile_returns P buf hP _ (Nat.le_refl _),
+    fun start => Offsets.loadTable_returns P buf hP start _ (Nat.le_refl _),
+    fun start t flags id => Offsets.resolveRef_returns_top P buf hP start t _ flags id (Nat.le_refl _),
     fun o => Offsets.rawData_returns buf o,
-    fun start => Offsets.scan_returns P hP buf start,
+    fun start => Offsets.scan_returns P buf hP start,
     fun n first data i => C11.member_total n first data i,
     fun X fs data => Enc.decodeChain_never_panics X fs data,
     fun tolerant width pairs data => C14.xref_sections_total 64 tolerant width pairs data [],
@@ -398,23 +428,208 @@ theorem merge_total (size : Nat) (h : List (List Xref.Sub)) (hp : Xref.pairsOK (
     ∃ t, Xref.mergeAll (Xref.newTable size) h.reverse = .ok t ∧ t.length = size + 1 :=
   Xref.merge_total size h hp
 
-/-- **The hypotheses of `open_core_total` are met by the byte-level models.** The instance of the parser
-    parameters built from `read_xref_and_trailer_at`, `parse_indirect_object` and `parse` (`Model/OpenGlue`) is
-    total for every total resolver — in both option sets (`env.allowMissingEndobj`). -/
-theorem table_parsers_total {R : Type} (env : Env R) (henv : EnvOk env) : Offsets.Total (tableOnlyParsers env) :=
-  tableOnlyParsers_total env henv
+/-- **The hypotheses of `open_core_total` are met by the byte-level models.** `Offsets.coreParsers` plugs together the
+    models that exist once each — `XrefTable.readXrefAndTrailerAt` with both section formats, `parse_indirect_object`,
+    `parse` (`Model/XrefFile`, `Model/XrefStreamRead`, `Model/OffsetsConcrete`) — and is total on every file a slice
+    can hold, strict and tolerant, for parameters (typed reader of the xref stream dictionary, stream data, filter
+    chain, `scan` items, resolver, decryption) that return `Ok` or `Err`. -/
+theorem core_parsers_total {R : Type} (env : Env R) (typed : Dict R → Out XrefTable.XInfo)
+    (sdata : Dict R → StreamInner → Out (List UInt8)) (allowErr : Bool)
+    (dec : Dict R → List UInt8 → Out (List UInt8)) (S : List UInt8 → List (Out (Offsets.Obj (Prim R)))) (n : Nat)
+    (hn : n ≤ Offsets.isizeMax) (hp : Offsets.ParamsOk env typed sdata dec S) :
+    Offsets.TotalOn (Offsets.coreParsers env typed sdata allowErr dec S n) n :=
+  Offsets.coreParsers_total env typed sdata allowErr dec S n hn hp
 
-/-- The composition on the concrete parsers: opening ANY byte string with the byte-level table reader and
-    resolving ANY object number returns. -/
-theorem open_core_total_concrete {R : Type} (env : Env R) (henv : EnvOk env) (buf : List UInt8) :
-    (Offsets.openFile (tableOnlyParsers env) (buf.length + 2) buf).Returns ∧
+/-- **The composition on the concrete parsers, both section formats.** Opening ANY byte string (header, `startxref`,
+    the `/Prev` walk over table and stream sections, merge) and resolving ANY object number through direct or
+    compressed storage returns `Ok` or `Err`. -/
+theorem open_core_total_concrete {R : Type} (env : Env R) (typed : Dict R → Out XrefTable.XInfo)
+    (sdata : Dict R → StreamInner → Out (List UInt8)) (allowErr : Bool)
+    (dec : Dict R → List UInt8 → Out (List UInt8)) (S : List UInt8 → List (Out (Offsets.Obj (Prim R))))
+    (hp : Offsets.ParamsOk env typed sdata dec S) (buf : List UInt8) (hn : buf.length ≤ Offsets.isizeMax) :
+    (Offsets.openFile (Offsets.coreParsers env typed sdata allowErr dec S buf.length) (buf.length + 2) buf).Returns ∧
     ∀ (start : Nat) (t : Xref.Table) (flags : Offsets.Flags) (id : Nat),
-      (Offsets.resolveRef (tableOnlyParsers env) buf start t (2 * t.length + 3) [] flags id).Returns := by
-  have h := open_core_total (tableOnlyParsers env) (table_parsers_total env henv) buf
+      (Offsets.resolveRef (Offsets.coreParsers env typed sdata allowErr dec S buf.length) buf start t
+        (2 * t.length + 3) [] flags id).Returns := by
+  have h := open_core_total _ buf (core_parsers_total env typed sdata allowErr dec S buf.length hn hp)
   exact ⟨h.2.2.1, h.2.2.2.2.1⟩
 
+/-- **… and on a well-formed chain it is the real `/Prev` walk** (`Props/C02.walk_visits_chain`, here for the concrete
+    parsers): totality says the walk always comes back; on a chain `newest :: older` of sections that the concrete
+    reader returns at their offsets, linked through `/Prev`, it comes back with exactly the merge of the chain,
+    newest first, and the newest trailer — using `older.length ≤ len` rounds of the loop. -/
+theorem open_walk_concrete {R : Type} (env : Env R) (typed : Dict R → Out XrefTable.XInfo)
+    (sdata : Dict R → StreamInner → Out (List UInt8)) (allowErr : Bool)
+    (dec : Dict R → List UInt8 → Out (List UInt8)) (S : List UInt8 → List (Out (Offsets.Obj (Prim R))))
+    (buf : List UInt8) (start fuel : Nat) (newest : Offsets.Rev (Dict R)) (older : List (Offsets.Rev (Dict R))) (size : Nat)
+    (hx : Offsets.locateXref buf = .ok newest.off) (hin : start + newest.off < buf.length)
+    (hfit : start + newest.off ≤ OffLex.usizeMax)
+    (hnew : (Offsets.coreParsers env typed sdata allowErr dec S buf.length).xrefAt (buf.drop (start + newest.off))
+        = .ok (newest.subs, newest.trailer))
+    (hsize : (Offsets.coreParsers env typed sdata allowErr dec S buf.length).sizeOf newest.trailer = .ok size)
+    (hmax : size ≤ Offsets.maxId)
+    (hread : ∀ r ∈ older, Offsets.ReadsAt (Offsets.coreParsers env typed sdata allowErr dec S buf.length) buf start r)
+    (hlink : Offsets.Linked (Offsets.coreParsers env typed sdata allowErr dec S buf.length) (newest :: older))
+    (hnd : (older.map (·.off)).Nodup) (hfuel : older.length ≤ fuel) :
+    Offsets.loadTable (Offsets.coreParsers env typed sdata allowErr dec S buf.length) fuel buf start
+      = Offsets.withTrailer newest.trailer (Xref.mergeAll (Xref.newTable size) ((newest :: older).map (·.subs))) :=
+  Xref.walk_visits_chain _ buf start fuel newest older size hx hin hfit hnew hsize hmax hread hlink hnd hfuel
+
 -- ===================================================================================================
--- 7. non-vacuity, regression witnesses
+-- 7. the typed layer: derive-generated loaders
+
+/-- **`derived_reader_total`.** The reader that `#[derive(Object)]` generates for a struct (`Model/Derive.readStruct`:
+    the `/Type` test, the checks, the fields in declaration order with `default`, catch-all and error wrapping, on top of
+    the container impls `Option` / `Vec` / `HashMap` / pair / `Box` / `MaybeRef` / `RcRef` / `Ref` / `Lazy`) returns a
+    value or an error of the implementation — never the model's `oof`; the model has no panic outcome, none of these
+    functions indexes, unwraps or computes — for EVERY schema, every input primitive, strict and tolerant, given
+    readers of the leaf shapes and default expressions that do (`SchemaOk`) and a resolver that does (`EnvOk`). -/
+theorem derived_reader_total (cfg : Derive.Cfg) (sem : Derive.Sem) (env : Derive.Env) (he : Derive.EnvOk env)
+    (S : Derive.Schema) (hS : Derive.SchemaOk sem env S) (p : Derive.Prim) (hp : p.plain = true) :
+    Derive.Clean (Derive.readStruct cfg sem env S p) :=
+  Derive.readStruct_clean cfg sem he S hS p hp
+
+/-- The derived enum readers (name enums with an `other` variant, integer enums). -/
+theorem derived_enum_total (env : Derive.Env) (he : Derive.EnvOk env) (S : Derive.Schema) (p : Derive.Prim)
+    (hp : p.plain = true) : Derive.Clean (Derive.readEnum env S p) :=
+  Derive.readEnum_clean he S p hp
+
+/-- **Over the generated schemas.** Reading ANY primitive as ANY of the derived models extracted from `pdf/src` (60 at
+    this commit; regenerated from the source on every run), to ANY nesting budget `n`, through all nested derived
+    models, `PagesNode` / `PagesRc` / `PageRc` and every `default = ".."`, is a value or an error — given readers `hand` of
+    the hand-written shapes (`Derive.isHand`) that are. `hreg` is the decidable `RegistryOk` of the generated data (every
+    default is of a form that evaluates; `Page` and `PageTree` exist): Lean's kernel cannot run `String.toInt?` /
+    `splitOn`, so it is an explicit hypothesis here and is evaluated by the compiled model driver on every run
+    (stream `c01.registry`). -/
+theorem typed_registry_total (cfg : Derive.Cfg) (hreg : Derive.RegistryOk Generated.generatedSchemas)
+    (hand : Derive.Env → Derive.Shape → Derive.Prim → Derive.R Derive.Val)
+    (hhand : ∀ env, Derive.EnvOk env → ∀ s p, p.plain = true → Derive.Clean (hand env s p))
+    (n : Nat) (env : Derive.Env) (he : Derive.EnvOk env) (S : Derive.Schema) (hS : S ∈ Generated.generatedSchemas)
+    (p : Derive.Prim) (hp : p.plain = true) :
+    Derive.Clean ((Derive.semH cfg Generated.generatedSchemas hand (n + 1)).rd env (.model S.name) p) ∧
+    Derive.Clean (Derive.readStruct cfg (Derive.semH cfg Generated.generatedSchemas hand n) env S p) := by
+  refine ⟨Derive.semH_clean cfg _ hreg hand hhand (n + 1) env he _ p hp, ?_⟩
+  exact Derive.readStruct_clean cfg _ he S
+    (Derive.schemaOk_of cfg _ hand n env (fun s q hq => Derive.semH_clean cfg _ hreg hand hhand n env he s q hq) S
+      (hreg.dflt S hS)) p hp
+
+/-- **Typed load of any object as any derived model terminates without panic.** Two theorems about the same code,
+    side by side: the *control* of nested loads (`StorageResolver::get`: recursion guard, 64 nested gets; `Model/TypedLoad`,
+    C14) returns on every object graph — cyclic, self-referential, dangling — with fuel `objects + 1` and never nests
+    deeper than 64; the *values* (`Model/Derive` over the generated schemas) are read without partiality at every
+    nesting budget, where a used-up budget is the guard's `Err`. What links them is not proved: that the budget `n` of
+    the value model is the guard of the control model (64 gets × at most `MAX_DEPTH` = 20 directly nested dictionaries per
+    object, `parse_nesting_bounded`). -/
+theorem typed_load_total (cfg : Derive.Cfg) (hreg : Derive.RegistryOk Generated.generatedSchemas)
+    (hand : Derive.Env → Derive.Shape → Derive.Prim → Derive.R Derive.Val)
+    (hhand : ∀ env, Derive.EnvOk env → ∀ s p, p.plain = true → Derive.Clean (hand env s p)) :
+    (∀ (n : Nat) (env : Derive.Env), Derive.EnvOk env → ∀ (s : Derive.Shape) (p : Derive.Prim), p.plain = true →
+        Derive.Clean ((Derive.semH cfg Generated.generatedSchemas hand n).rd env s p)) ∧
+    (∀ (g : TypedLoad.Graph) (tolerant : Bool) (k : Nat),
+        TypedLoad.load g tolerant (g.length + 1) [] k ≠ .oof ∧ TypedLoad.load g tolerant (g.length + 1) [] k ≠ .panic) :=
+  ⟨Derive.semH_clean cfg _ hreg hand hhand,
+   fun g tolerant k => ⟨C14.guarded_load_terminates g tolerant k, C14.guarded_load_never_panics g tolerant _ _ _⟩⟩
+
+-- ===================================================================================================
+-- 8. resources
+
+/-- **`read_core_linear`: the step bounds of the read core, in one place.** Wherever the model of a loop or a recursion
+    has fuel, the fuel that never runs out is an explicit linear function of the input (`len` = bytes of the file /
+    buffer, `data` = bytes a stream decodes to, `objects` = entries of the tables involved); where the model recurses
+    structurally, what it produces is bounded by what it consumes:
+
+    1. object parser: `3·len + 64` levels of recursion / loop rounds for `parse` from any cursor (and a successful parse
+       consumes ≥ 1 byte; values nest ≤ 20);
+    2. string lexers: `bytes left + 2` lexemes, `bytes left + 1` loop rounds per lexeme;
+    3. content stream: ≤ `len + 1` rounds of `OpBuilder::parse`, each round one `parse` (1.) — the rounds are linear, a
+       round's parse is linear in what lies ahead; that the total is ≤ `(MAX_DEPTH + 1)·len` follows from the nesting
+       limit but is not proved here;
+    4. classic cross-reference section: ≤ `len + 1` subsections, and `n` entries cost ≥ `3 n` bytes whatever the header
+       claims;
+    5. cross-reference stream section: never more entries than decoded bytes;
+    6. the `/Prev` walk: `len + 2` rounds (on a well-formed chain exactly its length: `open_walk_concrete`), and the table it
+       returns has ≤ `MAX_ID + 1` = 1 000 001 slots whatever `/Size` says;
+    7. resolving an object: `2·(table length) + 3` nested calls;
+    8. typed loads: `objects + 1` nested gets, and never more than 64 (the guard's depth limit);
+    9. name / number tree walks: ≤ `B` gets for kid numbers below `B`, no node entered twice; page lookup: ≤ `16·m` gets
+       for `/Kids` arrays of ≤ `m` entries (C14).
+    The walker's limits (10 s per document in the quick tier, 8 MiB stack, 1.5 GiB address space) are generous
+    stand-ins for these bounds; what the bounds do not cover is named in the claim (third-party decoders, the
+    hand-written loaders, allocation sizes). -/
+theorem read_core_linear {R : Type} (env : Env R) (henv : EnvOk env) (buf : Buf) (hs : RealSize buf) :
+    -- 1
+    (∀ pos flags, pos ≤ buf.size → parseWithLexer env buf (3 * buf.size + 64) pos flags ≠ .oof) ∧
+    -- 2
+    (∀ pos, pos ≤ buf.size → collectString buf (buf.size - pos + 2) pos 0 [] ≠ .oof ∧
+        collectHex buf pos (buf.size - pos + 2) pos [] ≠ .oof) ∧
+    -- 3
+    (∀ (o : Oracle) (allow : Bool), contentLoop env buf o allow (buf.size + 1) 0 ≠ .oof) ∧
+    -- 4
+    (∀ pos, pos ≤ buf.size → XrefTable.tableLoop buf (buf.size + 1) pos [] ≠ .oof) ∧
+    (∀ n pos es q, pos ≤ buf.size → XrefTable.entryLoop buf n pos [] = .ok (es, q) → 3 * es.length ≤ q - pos ∧ q ≤ buf.size) ∧
+    -- 5
+    (∀ first n width data allowErr s rest, Xref.parseSection first n width data allowErr = .ok (s, rest) →
+        s.entries.length ≤ data.length) ∧
+    -- 6
+    (∀ {V T : Type} (P : Offsets.Parsers V T) (bytes : List UInt8) (hP : Offsets.TotalOn P bytes.length) (start : Nat),
+        Offsets.loadTable P (bytes.length + 2) bytes start ≠ .oof ∧
+        ∀ t tr, Offsets.loadTable P (bytes.length + 2) bytes start = .ok (t, tr) → t.length ≤ Offsets.maxId + 1) ∧
+    -- 7
+    (∀ {V T : Type} (P : Offsets.Parsers V T) (bytes : List UInt8) (hP : Offsets.TotalOn P bytes.length)
+        (start : Nat) (t : Xref.Table) (flags : Offsets.Flags) (id : Nat),
+        Offsets.resolveRef P bytes start t (2 * t.length + 3) [] flags id ≠ .oof) ∧
+    -- 8
+    (∀ (g : TypedLoad.Graph) (tolerant : Bool) (k : Nat),
+        TypedLoad.load g tolerant (g.length + 1) [] k ≠ .oof ∧ TypedLoad.load g tolerant (TypedLoad.maxNest + 1) [] k ≠ .oof) ∧
+    -- 9
+    (∀ (g : List TypedLoad.TNode) (root : TypedLoad.TNode) (B : Nat),
+        (∀ node ∈ g, ∀ kid ∈ TypedLoad.kidsOf node, kid < B) → (∀ kid ∈ TypedLoad.kidsOf root, kid < B) →
+        (TypedLoad.walkTree g root).st.gets ≤ B) ∧
+    (∀ (g : List TypedLoad.PNode) (m : Nat), (∀ kids count, TypedLoad.PNode.tree kids count ∈ g → kids.length ≤ m) →
+        ∀ kids, kids.length ≤ m → ∀ n, (TypedLoad.page g true kids n).gets ≤ 16 * m) := by
+  refine ⟨?_, ?_, ?_, ?_, ?_, ?_, ?_, ?_, ?_, ?_, ?_⟩
+  · intro pos flags h
+    exact (parseWithLexer_good env henv buf hs _ pos flags h (by omega)).ret.ne_oof
+  · intro pos h
+    constructor
+    · have hm : (0 : Int) + ((buf.size - pos : Nat) : Int) ≤ i64Max := by unfold RealSize at hs; unfold i64Max; omega
+      rcases collectString_spec buf (buf.size - pos + 2) pos 0 [] h (Int.le_refl 0) hm (by omega) with he | ⟨s, p, hp, _⟩
+      · rw [he]; simp
+      · rw [hp]; simp
+    · rcases collectHex_spec buf pos (buf.size - pos + 2) pos [] (Nat.le_refl _) h (by omega) with he | ⟨s, p, hp, _⟩
+      · rw [he]; simp
+      · rw [hp]; simp
+  · intro o allow
+    rcases contentLoop_spec env henv buf hs o allow (buf.size + 1) 0 (Nat.zero_le _) (by omega) with he | ⟨p, hp, _⟩
+    · rw [he]; simp
+    · rw [hp]; simp
+  · intro pos h
+    rcases XrefTable.tableLoop_total buf (buf.size + 1) pos [] h (by omega) (fun s hs => by cases hs)
+      with he | ⟨subs, q, hq, _⟩
+    · rw [he]; simp
+    · rw [hq]; simp
+  · intro n pos es q h heq
+    rcases XrefTable.entryLoop_total buf n pos [] h (fun e he => by cases he) with he | ⟨es', q', hq', q1, q2, _, q4⟩
+    · rw [he] at heq; cases heq
+    · rw [hq'] at heq; cases heq; simp at q4; exact ⟨by omega, q2⟩
+  · intro first n width data allowErr s rest heq
+    rcases Xref.parseSection_spec first n width data allowErr with he | ⟨s', rest', hr, _, _, hl⟩
+    · rw [he] at heq; cases heq
+    · rw [hr] at heq; cases heq; exact hl
+  · intro V T P bytes hP start
+    exact ⟨(Offsets.loadTable_returns P bytes hP start _ (Nat.le_refl _)).2,
+      fun t tr h => Offsets.loadTable_length P _ bytes start t tr h⟩
+  · intro V T P bytes hP start t flags id
+    exact (Offsets.resolveRef_returns_top P bytes hP start t _ flags id (Nat.le_refl _)).2
+  · intro g tolerant k
+    exact ⟨C14.guarded_load_terminates g tolerant k, C14.load_depth_bounded g tolerant k⟩
+  · intro g root B hg hr
+    exact (C14.walk_work_linear g root B hg hr).1
+  · intro g m hm kids hk n
+    exact C14.page_steps_bound g true m hm kids hk n
+
+-- ===================================================================================================
+-- 9. non-vacuity, regression witnesses
 
 /-- an environment without resolver and without decryption; reals are kept as their token text -/
 def textEnv : Env (List UInt8) :=
@@ -466,10 +681,23 @@ example : (match inlineImage textEnv #[66, 73, 32, 47, 87, 32, 49, 32, 73, 68, 3
 def xrefSample : Buf :=
   "xref\n0 1\n0000000000 65535 f \n3 1\n0000000017 00000 n \ntrailer\n<</Size 4>>".toUTF8.data
 
-example : (match readXrefAt textEnv xrefSample 0 with
-    | .ok (.table secs _, _) => secs | _ => []) = [⟨0, [.free 0 65535]⟩, ⟨3, [.raw 17 0]⟩] := by decide +kernel
+def noTyped : Dict (List UInt8) → Out XrefTable.XInfo := fun _ => .err
+def noData : Dict (List UInt8) → StreamInner → Out (List UInt8) := fun _ _ => .err
 
-example : outTag (readXrefAt textEnv "xref\n0 4294967295\n0000000000 65535 f \ntrailer\n<<>>".toUTF8.data 0) = 1 := by
+example : (match XrefTable.readXrefAt textEnv noTyped noData false xrefSample 0 with
+    | .ok (secs, _) => secs | _ => []) = [⟨0, [.free 0 65535]⟩, ⟨3, [.raw 17 0]⟩] := by decide +kernel
+
+example : outTag (XrefTable.readXrefAt textEnv noTyped noData false
+    "xref\n0 4294967295\n0000000000 65535 f \ntrailer\n<<>>".toUTF8.data 0) = 1 := by
   decide +kernel
+
+/-- a cross-reference stream section: `/W [1 1 1]`, two rows (`Free 0 255`, `Raw 16 0`), the typed entries and the
+    data supplied the way the typed loader and `Resolve::stream_data` would -/
+def xrefStmSample : Buf :=
+  "5 0 obj\n<</Type/XRef/Size 2/W[1 1 1]/Length 6>>\nstream\nabcdef\nendstream\nendobj\nstartxref".toUTF8.data
+
+example : (match XrefTable.readXrefAt textEnv (fun _ => .ok ⟨[1, 1, 1], [0, 2]⟩) (fun _ _ => .ok [0, 0, 255, 1, 16, 0]) false
+      xrefStmSample 0 with
+    | .ok (secs, _) => secs | _ => []) = [⟨0, [.free 0 255, .raw 16 0]⟩] := by decide +kernel
 
 end C01
